@@ -12,6 +12,7 @@ import Driver.Store
 import Driver.Syntax
 import Driver.DryParam
 import Driver.Bytecode
+import Driver.FilterSem
 /-! registry of the areas the driver serves -/
 namespace Driver
 def areas : List (String × Handler) := [
@@ -28,6 +29,7 @@ def areas : List (String × Handler) := [
   ("storeview", StoreD.handle),
   ("nstext", SyntaxD.handle),
   ("dryparam", DryParamD.handle),
-  ("nsbytecode", BytecodeD.handle)
+  ("nsbytecode", BytecodeD.handle),
+  ("filtersem", FilterSemD.handle)
 ]
 end Driver
